@@ -756,7 +756,7 @@ def set_use_caps(polygon, index_list, add=False, tol=1.0e-10,
         polygon.use_caps = 0
     t2 = tol**2
     for i in index_list:
-        polygon.use_caps |= (1 << index_list[i])
+        polygon.use_caps |= (1 << int(i))
     if not allow_doubles:
         #
         # Check for doubles
